@@ -47,7 +47,7 @@ def observe(cases, tag, ops=("validate",)):
     """Compile and run every case; returns list of trace records (one per program)."""
     reqs = []
     for i, c in enumerate(cases):
-        src = vlib.render_program(c["env"], c["ty"])
+        src = c.get("_src") or vlib.render_program(c["env"], c["ty"])
         c["_src"] = src
         reqs.append(vlib.compile_req(i, [("entry.ts", src)]))
     t0 = time.time()
@@ -190,3 +190,24 @@ def run(prop, tier):
                          "TypeScript itself is not available; membership is my TLA+ transcription, contested pairs are don't-care",
                          "value codec of driver/driver.mjs (round-trip self-tested)", "swc-based type stripper for the client runtime"])
     vlib.finish(prop, violations, known_hits)
+
+
+def replay(prop, path):
+    """re-execute one recorded (program, value, mode) on the current tree and judge it again with Trace_Val.tla"""
+    import sys
+    vlib.build()
+    pl = json.load(open(path))
+    case = {"ty": pl["type_term"], "env": pl["env"], "probes": [{"v": pl["value"]}], "_src": pl["program"]}
+    recs = observe([case], f"{prop}-replay")
+    devs = {k["deviation"] for k in vlib.open_findings(prop) if k.get("deviation")}
+    judged, _, _ = judge(recs, f"{prop}-replay", devs, shards=1)
+    ob = recs[0]["obs"][0] if recs[0]["obs"] else {"val": recs[0]["outcome"], "vals": recs[0]["outcome"]}
+    print(f"program: {pl['program'].strip()}\nvalue: {json.dumps(pl['value'])}\nmode: {pl['mode']}  recorded: expected {pl['expected']} observed {pl['observed']}")
+    print(f"now: compile {recs[0]['outcome']}, validate default = {ob['val']}, strict = {ob['vals']}")
+    mine = [j for j in judged if j["prop"] == prop]
+    for j in mine:
+        if j["class"] == "NEW":
+            print(f"VIOLATION property={prop} replay={os.path.abspath(path)}")
+            sys.exit(1)
+        print(f"KNOWN-FINDING: property={prop} {j['class']}")
+    print("the recorded violation does not reproduce on the current tree" if not mine else "")
